@@ -34,6 +34,8 @@ def jobs(tier):
             heavy = is_heavy(e)
             if n == 16 and heavy:
                 continue            # secret exponents/shift counts: 2^n paths, stated bound n <= 8
+            if n > 4 and is_very_heavy(e):
+                continue            # the power-then-reuse composition does not finish at n=8 (1500 s): stated bound n = 4
             for g in (None, "sym"):
                 if g == "sym" and heavy and n > 4:
                     continue
@@ -56,6 +58,12 @@ def jobs(tier):
             for pre in (["false_region"], ["aborted_region"], ["self_first"]):
                 js.append(dict(name="%s/n4/after-%s" % (e.name, pre[0]), entry=e.name, backend="snarkjs",
                                cfg=dict(n=4, r=2, guard=None, bound=(1 << 64), prelude=pre), tier=tier, weight=2))
+    # ... and inside an enclosing guarded region, after an inner region was entered and left there
+    for e in CAT.build(4, "quick"):
+        if e.name in PRELUDE_SUBSET or e.name in ("assert_lt_ss", "assert_positive", "assert_nonzero", "assert_ne_ss", "int_ne_ss"):
+            for pre in (["false_region"], ["true_region"], ["aborted_region"]):
+                js.append(dict(name="%s/n4/guard-inside-after-%s" % (e.name, pre[0]), entry=e.name, backend="snarkjs",
+                               cfg=dict(n=4, r=2, guard="sym", bound=(1 << 64), inner_prelude=pre), tier=tier, weight=3))
     if tier == "thorough":
         for be in ("zkinterface", "zkifbellman", "zkifbulletproofs"):
             for e in CAT.build(4, "quick"):
